@@ -241,6 +241,15 @@ func (p *Program) newLockset() *lsAnalysis {
 		for _, f := range immutableFields[g.pkg+"."+g.typ] {
 			immutable[f] = true
 		}
+		if len(g.useNeedsWrite) == 0 {
+			// derived: a field that is only ever stored on an object still private to its constructor is
+			// immutable after construction and may be read without the lock
+			for i := 0; i < st.NumFields(); i++ {
+				if fv := st.Field(i); fv != mu && storesOnlyOnFresh(p, fv) {
+					immutable[fv.Name()] = true
+				}
+			}
+		}
 		for i := 0; i < st.NumFields(); i++ {
 			fv := st.Field(i)
 			if fv == mu || immutable[fv.Name()] || isAtomicType(fv.Type()) {
@@ -266,6 +275,31 @@ var immutableFields = map[string][]string{
 	"cache.httpLRUCache": {},
 	"server.server":      {"logFormat", "addr"},
 	"location.Locations": {},
+}
+
+// storesOnlyOnFresh: field fv is stored to at least once and every store is on a
+// freshly allocated object (a constructor).
+func storesOnlyOnFresh(p *Program, fv *types.Var) bool {
+	n := 0
+	for _, f := range p.allFuncs {
+		for _, b := range f.Blocks {
+			for _, in := range b.Instrs {
+				st, ok := in.(*ssa.Store)
+				if !ok {
+					continue
+				}
+				fa, ok := st.Addr.(*ssa.FieldAddr)
+				if !ok || fieldOf(fa.X.Type(), fa.Field) != fv {
+					continue
+				}
+				n++
+				if !isFreshBase(fa.X, p, 0) {
+					return false
+				}
+			}
+		}
+	}
+	return n > 0
 }
 
 func isAtomicType(t types.Type) bool {
